@@ -1001,15 +1001,25 @@ pub fn run_request(r: &Req) -> CaseOut {
     // a header with 8-bit count and index cannot hold more than 255 objects: the builder may refuse, or use several
     // headers - but whatever it emits must carry exactly the objects asked for
     let overfull: Option<usize> = match r {
-        Req::Commands(_, hs) if hs.iter().any(|h| !h.wide && h.objs.len() > 255) => Some(hs.iter().map(|h| h.objs.len()).sum()),
-        Req::DeadBands(hs) if hs.iter().any(|(_, wide, items)| !*wide && items.len() > 255) => Some(hs.iter().map(|h| h.2.len()).sum()),
+        Req::Commands(_, hs) if hs.iter().any(|h| !h.wide && h.objs.len() > 255) => {
+            Some(hs.iter().map(|h| h.objs.len()).sum())
+        }
+        Req::DeadBands(hs)
+            if hs
+                .iter()
+                .any(|(_, wide, items)| !*wide && items.len() > 255) =>
+        {
+            Some(hs.iter().map(|h| h.2.len()).sum())
+        }
         _ => None,
     };
     if let Some(total) = overfull {
         out.label("more_objects_than_an_8_bit_count");
         out.nontrivial = true;
         if let Ok(bytes) = &lib {
-            let on_wire: usize = ra::walk(function, &bytes[2..]).map(|hs| hs.iter().map(|h| h.objects.len()).sum()).unwrap_or(usize::MAX);
+            let on_wire: usize = ra::walk(function, &bytes[2..])
+                .map(|hs| hs.iter().map(|h| h.objects.len()).sum())
+                .unwrap_or(usize::MAX);
             if on_wire != total {
                 out.fail(Fail::new("R-count-overflow", format!("{total} objects were asked for with 8-bit indices; the request that was built declares {} (octets {:02x?} ...)", if on_wire == usize::MAX { "something the reference walker cannot parse".to_string() } else { on_wire.to_string() }, &bytes[..bytes.len().min(12)])));
             }
